@@ -455,6 +455,33 @@ pub const LADDERS: [&str; 16] = [
     "types-array", "patterns", "match-in-match", "field-chain", "generic-inst",
 ];
 
+/// right-nested constructs that stay cheap when they are hundreds of levels deep: (construct,
+/// deepest level in the quick tier, in the thorough tier). The first four are also run at every
+/// depth 65..=300 (the parser's look budget is a small constant, so thresholds sit anywhere).
+pub const DEEP_LADDERS: [(&str, usize, usize); 13] = [
+    ("unary-neg", 1024, 4096),
+    ("unary-not", 1024, 4096),
+    ("parens", 1024, 4096),
+    ("fn-types", 1024, 4096),
+    ("ref-types", 1024, 2048),
+    ("go-chain", 1024, 2048),
+    ("binary-right", 1024, 2048),
+    ("calls", 1024, 2048),
+    ("if-blocks", 1024, 2048),
+    ("types-array", 1024, 2048),
+    ("match-in-match", 512, 1024),
+    ("closures", 384, 1024),
+    ("while-blocks", 384, 1024),
+];
+pub const DEEP_DEPTHS: [usize; 16] = [96, 128, 192, 256, 320, 384, 448, 512, 640, 768, 896, 1024, 1536, 2048, 3072, 4096];
+
+/// what every ladder text is: a syntactically valid program, so the parser must accept it
+/// (stages after the parser may reject the ones named here)
+fn ladder_may_be_rejected_after_parsing(kind: &str) -> bool {
+    // paths `A::A::…` name nothing; a method call on a call result needs an annotated receiver
+    kind.starts_with("path-in-") || kind == "method-chain"
+}
+
 /// paths of d segments in every position a path can stand (the parser looks ahead over paths with a
 /// bounded budget): every length, not only powers of two
 pub const PATH_LADDERS: [&str; 6] = ["path-in-impl-header", "path-in-impl-for", "path-in-type", "path-in-expr", "path-in-pattern", "path-in-trait-bound"];
@@ -497,10 +524,23 @@ pub fn ladder_text(kind: &str, d: usize) -> Option<String> {
             rep("match true { true => ", d),
             rep(", false => 0 }", d)
         ),
-        "field-chain" => format!(
-            "struct S {{ f: int32 }}\nfn main() {{ let s = S {{ f: 1 }}; let x = (1{}).0; string_println(int32_to_string(x + s.f)) }}",
-            rep(", 2).0, 3", d.min(1)) + &rep("", 0)
-        ),
+        "field-chain" => {
+            // struct S0 { v: int32 } struct S1 { f: S0 } …; s.f.f.….v
+            let mut t = String::from("struct S0 { v: int32 }\n");
+            for i in 1..=d {
+                t.push_str(&format!("struct S{} {{ f: S{} }}\n", i, i - 1));
+            }
+            t.push_str("fn main() {\n    let s0 = S0 { v: 7 };\n");
+            for i in 1..=d {
+                t.push_str(&format!("    let s{}: S{} = S{} {{ f: s{} }};\n", i, i, i, i - 1));
+            }
+            t.push_str(&format!("    string_println(int32_to_string(s{}{}.v))\n}}", d, rep(".f", d)));
+            t
+        }
+        "go-chain" => format!("fn main() {{ {}(); string_println(\"ok\") }}", rep("go || ", d)),
+        "fn-types" => format!("fn f(x: {}int32) -> unit {{ () }}\nfn main() {{ string_println(\"ok\") }}", rep("() -> ", d)),
+        "ref-types" => format!("fn f(x: {}int32{}) -> unit {{ () }}\nfn main() {{ string_println(\"ok\") }}", rep("Ref[", d), rep("]", d)),
+        "while-blocks" => format!("fn main() {{ {}(){}; string_println(\"ok\") }}", rep("while false { ", d), rep(" }", d)),
         "generic-inst" => {
             // Box[Box[…[int32]…]]
             format!(
@@ -602,10 +642,10 @@ impl Family for Ladders {
         "ladders"
     }
     fn serves(&self) -> &'static [&'static str] {
-        &["C04"]
+        &["C04", "C11", "C12"]
     }
     fn rule(&self) -> &'static str {
-        "nesting ladders: 16 nesting constructs x depths 1,2,4,…,64 (thorough: 128), and 12 constructs that are long rather than deep (else-if chain, let / statement sequences, functions, match arms, variants, struct fields, arguments, string concatenation, && chain, method chain, closures) x lengths 1,2,4,…,512 (thorough: 2048), and paths of every length 1..160 (thorough: 300) in 6 positions (impl header, impl-for trait, type, expression, pattern, trait bound), each compiled in a worker process on a thread with the stack the goml binary gives its compiler thread (1 GiB; the binary itself is run on the same ladders by the `cli` family); a stack overflow kills the worker and is attributed to the case; distinct = distinct (construct, depth)"
+        "nesting ladders: 16 nesting constructs x depths 1,2,4,…,64 (thorough: 128), and 12 constructs that are long rather than deep (else-if chain, let / statement sequences, functions, match arms, variants, struct fields, arguments, string concatenation, && chain, method chain, closures) x lengths 1,2,4,…,512 (thorough: 2048), and paths of every length 1..160 (thorough: 300) in 6 positions (impl header, impl-for trait, type, expression, pattern, trait bound), and 13 right-nested constructs that stay cheap when deep (prefix - and !, parentheses, function / Ref / array types, go chains, right-nested + and calls, if / match / while / closure nesting) at depths 96..1024 (thorough: ..4096; the first four also at every depth 65..300); every ladder is a program of the documented grammar, so a rejection by the lexer or parser (and, except for the path and method-chain ladders, by any stage) is a finding for C11, a tree that is not the text a finding for C12; each compiled in a worker process on a thread with the stack the goml binary gives its compiler thread (1 GiB; the binary itself is run on the same ladders by the `cli` family); a stack overflow kills the worker and is attributed to the case; distinct = distinct (construct, depth)"
     }
     fn cases(&self, tier: Tier) -> Box<dyn Iterator<Item = Value> + '_> {
         let mut v = Vec::new();
@@ -620,6 +660,19 @@ impl Family for Ladders {
         for k in PATH_LADDERS {
             for d in 1..=(if tier == Tier::Quick { 160 } else { 300 }) {
                 v.push(json!({"ladder": k, "depth": d}));
+            }
+        }
+        for (i, (k, q, th)) in DEEP_LADDERS.iter().enumerate() {
+            let top = if tier == Tier::Quick { *q } else { *th };
+            if i < 4 {
+                for d in 65..=300 {
+                    v.push(json!({"ladder": k, "depth": d}));
+                }
+            }
+            for d in DEEP_DEPTHS {
+                if d <= top && !(i < 4 && d <= 300) {
+                    v.push(json!({"ladder": k, "depth": d}));
+                }
             }
         }
         let maxb = if tier == Tier::Quick { 512 } else { 2048 };
@@ -660,15 +713,27 @@ impl Family for Ladders {
             }
         };
         for (c, dd) in lossless {
-            rep.findings.push(Finding {
-                property: "C04",
-                class: format!("parse.{}", c),
-                site: format!("ladder={};msg={}", kind, normalise_msg(&dd)),
-                detail: format!("depth {}: {}", d, dd),
-                replay: json!({"kind": "text", "text": t, "oracle": "lossless"}),
-            });
+            for property in ["C12", "C04"] {
+                rep.findings.push(Finding {
+                    property,
+                    class: format!("parse.{}", c),
+                    site: format!("ladder={};msg={}", kind, normalise_msg(&dd)),
+                    detail: format!("depth {}: {}", d, dd),
+                    replay: json!({"kind": "text", "text": t, "oracle": "lossless"}),
+                });
+            }
         }
         rep.tag(format!("ladder:{}:{}", kind, tag));
+        // every ladder is a program of the documented grammar
+        if tag == "err-parser" || tag == "err-lexer" || (tag.starts_with("err-") && !ladder_may_be_rejected_after_parsing(kind)) {
+            rep.findings.push(Finding {
+                property: "C11",
+                class: format!("ladder.valid-program-rejected.{}", &tag[4..]),
+                site: format!("ladder={}", kind),
+                detail: format!("depth {}: a program of the documented grammar is rejected ({})", d, tag),
+                replay: json!({"kind": "text", "text": t, "oracle": "total"}),
+            });
+        }
         for (c, dd) in viol {
             rep.findings.push(Finding {
                 property: "C04",
